@@ -138,7 +138,7 @@ def gen(rng, i, tier):
     def evs():
         beats = sorted(rng.sample(range(0, 48 * 100), rng.choice([0, 1, 2, 3])))
         return [[b, rand_dec(rng)] for b in beats]
-    return {"k": "timing", "bpms": evs(), "stops": evs(), "delays": evs(), "warps": evs(), "offset": rng.choice([None, "", dec_str(rand_dec(rng))]),
+    return {"k": "timing", "bpms": evs(), "stops": evs(), "delays": evs(), "warps": evs(), "offset": rng.choice([None, "", dec_str(rand_dec(rng)), dec_str(rand_dec(rng)), rng.choice([".5", "-.25", "+.125", "5e-3", "-1.25E-2", "125e-3", " 0.5\n", "1."])]),
             "noise": rng.randrange(1 << 30)}
 
 
@@ -398,6 +398,16 @@ def oracle(c, o):
         for f, got in zip(("bpms", "stops", "delays", "warps"), o[1:5]):
             if got != evs_obs(c[f]):
                 return "TimingData.%s differs from the events written into the simfile" % f
+        # the OFFSET string reaches the engine as the exact decimal it spells
+        from decimal import Decimal
+        got = o[5]
+        gotv = Fraction(Decimal(got[1])) if got[0] == "sci" else Fraction(-got[1] if got[0] else got[1], 10 ** got[2])
+        try:
+            wantv = Fraction(Decimal((c["offset"] or "0").strip()))
+        except Exception:
+            wantv = None
+        if wantv is not None and gotv != wantv:
+            return "TimingData.offset is %s, the OFFSET string %r spells %s" % (gotv, c["offset"], wantv)
     return None
 
 
